@@ -77,7 +77,12 @@ func runLoss(bin, victim, phase string, kill bool, logDir string, emit emitter) 
 			lb.Disable(procs[id].Up, id != victim)
 		}
 		for i, e := range endpoints {
-			u, err := psim.Listen(context.Background(), lb.Addr(), e, fmt.Sprintf("u%d", i), "", "")
+			// the first listener's token expires in an hour, the second's never
+			var exp time.Time
+			if i == 0 {
+				exp = time.Now().Add(time.Hour)
+			}
+			u, err := psim.Listen(context.Background(), lb.Addr(), e, fmt.Sprintf("u%d", i), psim.HMACToken(psim.ProcSecret, exp, nil), "")
 			if err != nil {
 				return err
 			}
